@@ -331,7 +331,7 @@ def post_gate_rule(rep, F, ids, adds):
         rep.lost("add_inputs_from has no success return")
         return
     if gated:
-        return
+        return True
     if partial_note:
         rep.violation("POST-gate", "add_inputs_from|partial-order", "add_inputs_from decides success on the *false* edge of `actual < required` (%s): Value is only partially ordered - with more lovelace than required but fewer units of a requested asset neither `<` nor `>=` holds, so the test stays silent and selection reports success without covering that asset (a burn under random-improve, an offered list repeating a UTxO). Only the true edge of `actual >= required` proves coverage" % partial_note[0], {})
         return
@@ -474,6 +474,12 @@ def check(rep, F, tier, replay=None):
                     continue
                 work.append(p)
         if bad:
+            # the strategies' own tests may have moved into a helper; what makes the success sound is the final test on the
+            # builder's state (POST-gate) - when that dominates the return, this path is covered
+            quiet = common.Report(rep.pid, rep.tier)
+            if post_gate_rule(quiet, F, ids, adds) is True and not quiet.violations:
+                rep.allow("GATE")
+                continue
             rep.violation("GATE", "add_inputs_from|%s" % ("entry" if "entry" in bad else "after-add"), "add_inputs_from can return Ok on a path where no coverage test lies between %s and the return" % bad, {})
     # largest-first's own final gate
     lf = ids["lf"]
@@ -490,6 +496,10 @@ def check(rep, F, tier, replay=None):
             if d["kind"] == "call" and d["callee"].endswith("::ge") and edge != "0" and not d["neg"]:
                 ok = True
         if not ok:
+            hid = [d["callee"] for s, edge, d in mp.dominating_guards(F, lf, bi, lorg) if d["kind"] == "call" and (d["callee"] in F.fns or "{closure" in d["callee"])]
+            if hid:
+                rep.lost("cip2_largest_first_by: the final coverage test is computed by %s (a local closure / helper): the rule cannot see the comparison's direction" % H.short(hid[0]))
+                continue
             rep.violation("GATE", "cip2_largest_first_by|final", "cip2_largest_first_by returns Ok without passing the not-insufficient edge of its final `selected < needed` comparison", {})
 
     # ---- IDX ------------------------------------------------------------------------------------------------------------
@@ -718,6 +728,10 @@ def check(rep, F, tier, replay=None):
             if d["kind"] == "call" and d["callee"].endswith("::lt") and ((edge != "0") != d["neg"]):
                 ok = True
         if not ok:
+            hid = [d["callee"] for s, edge, d in mp.dominating_guards(F, lf, c.bb, lorg) if d["kind"] == "call" and (d["callee"] in F.fns or "{closure" in d["callee"])]
+            if hid:
+                rep.lost("cip2_largest_first_by: the stop test is computed by %s (a local closure / helper): the rule cannot see the comparison's direction" % H.short(hid[0]))
+                continue
             rep.violation("LF", "cip2_largest_first_by|stop", "cip2_largest_first_by adds an input on a path that does not pass the not-yet-covered edge of the coverage comparison (it no longer stops as soon as the target is covered)", {})
     fresh_rule(rep, F, ids)
     # FEE-aligned: the marginal fee is a difference of fees as the builder will charge them
